@@ -49,7 +49,43 @@ def run(p: Program, rep: Report, tier: str) -> None:
         else:
             rep.violation("R18.1", construct(fn_, text="urlparse(url)"), where(fn_, c), f"{fn_.fq} splits the URL with urlparse(): everything from ';' in the last path segment is moved out of `path`, so the request URL "
                           "does not have the given path and replace(path=...) keeps the old ;params")
-    rep.require_instances("R18.1", 13)
+    # request.url hands the gateway mapping to the builder as it is: a copy with one of the path keys overridden makes the URL of
+    # that interface something other than root path + path (and other than the other interface's URL for the same request)
+    PATHK = {"root_path", "path", "SCRIPT_NAME", "PATH_INFO", "query_string", "QUERY_STRING", "scheme", "wsgi.url_scheme", "server", "headers", "HTTP_HOST", "SERVER_NAME", "SERVER_PORT"}
+    for side, kw_ in (("wsgi", "environ"), ("asgi", "scope")):
+        try:
+            conn = p.cls(f"baize.{side}.requests:HTTPConnection")
+        except Exception:
+            continue
+        acc = p.find_method(conn, "url")
+        if acc is None:
+            continue
+        try:
+            upaths, _uc, _ui = run_paths(p, acc, conn)
+        except Exception:
+            continue
+        rep.analysed(acc.fq)
+        seen_u = set()
+        for pa in upaths:
+            v = pa.value
+            if pa.exit != "return" or v is None or v[0] != "call" or not callee_is(v[1], "URL"):
+                continue
+            kws = dict(v[3])
+            g = kws.get(kw_)
+            if g is None:
+                continue
+            if g[0] == "attr" and g[1] == ("param", "self"):
+                if "ok" not in seen_u:
+                    seen_u.add("ok")
+                    rep.ok("R18.1", f"{side}: request.url builds the URL from the connection's own {kw_} mapping")
+            elif g[0] == "dict" and any(k is not None and k[0] == "const" and k[1] in PATHK for k, _v in g[1]):
+                over = sorted(k[1] for k, _v in g[1] if k is not None and k[0] == "const" and k[1] in PATHK)
+                if tuple(over) not in seen_u:
+                    seen_u.add(tuple(over))
+                    rep.violation("R18.1", construct(acc, text=f"URL({kw_}=<copy with {over} overridden>)"), where(acc),
+                                  f"{side}: request.url builds the URL from a copy of the {kw_} in which {over} is overridden ({show(g)[:80]}): for the requests that take this path the URL is "
+                                  "no longer scheme://host + root path + path (+ query) of the request, and differs from the other interface's URL for the same request", positive=True)
+    rep.require_instances("R18.1", 15)
 
     # ---------------------------------------------------------------- R18.2
     # the builder together with the module-level repository functions it delegates to (a builder moved to baize.utils, an
